@@ -639,6 +639,55 @@ def run_system_rules(acc):
     acc.sample({"clause": "system-rule", "definition": "nu = 5 * ua ** 2 * ub ** -1", "rule": "nu : ua", "probe": "get_base_units(ua, system='S')"})
 
 
+def run_dimension_orders(acc):
+    """derived dimensions may be written in any order — a dimension referred to before its own line is still the
+    dimension its line says: all permutations of four derived-dimension lines (a chain [C] <- [D] <- [E] and [F] using two of
+    them) among the unit lines, from lines and from a file, float and Fraction: get_dimensionality of every dimension and of
+    a unit of each, and Quantity.check, agree with the independent reader and do not depend on the order"""
+    import tempfile
+    pint = core.boot()
+    units = ["ua = [A]", "ub = [B]", "uc = ua / ub", "ud = ua / ub ** 2", "ue = ua ** 2 / ub ** 2", "uf = ua ** 3 / ub ** 3"]
+    dims_ = ["[C] = [A] / [B]", "[D] = [C] / [B]", "[E] = [D] * [A]", "[F] = [C] * [E]"]
+    want = {"[C]": {"[A]": 1, "[B]": -1}, "[D]": {"[A]": 1, "[B]": -2}, "[E]": {"[A]": 2, "[B]": -2}, "[F]": {"[A]": 3, "[B]": -3}}
+    unit_of = {"[C]": "uc", "[D]": "ud", "[E]": "ue", "[F]": "uf"}
+    for perm in itertools.permutations(dims_):
+        for pos in (0, 2, len(units)):
+            lines = units[:pos] + list(perm) + units[pos:]
+            for nt in ("float", "Fraction"):
+                for path_kind in ("lines", "file"):
+                    acc.ev()
+                    acc.nt(("dimension-order", perm, pos, nt, path_kind))
+                    case = {"lines": lines, "nt": nt, "path": path_kind}
+                    kw = {} if nt == "float" else {"non_int_type": NIT[nt]}
+                    scratch = None
+                    try:
+                        if path_kind == "lines":
+                            o = call(lambda: pint.UnitRegistry(list(lines), cache_folder=None, **kw))
+                        else:
+                            scratch = tempfile.mkdtemp(prefix="c10dim_", dir=os.environ.get("VERIF_SCRATCH") or None)
+                            pth = os.path.join(scratch, "defs.txt")
+                            with open(pth, "w", encoding="utf-8") as fh:
+                                fh.write("\n".join(lines) + "\n")
+                            o = call(lambda: pint.UnitRegistry(pth, cache_folder=None, **kw))
+                    finally:
+                        if scratch:
+                            shutil.rmtree(scratch, ignore_errors=True)
+                    if o[0] != "ok":
+                        acc.violation(["dimension-order", "loading-raises", "derived-dimensions-in-this-order", nt], case, "a registry", o[1])
+                        continue
+                    ureg = o[1]
+                    for d, w in want.items():
+                        g1 = call(lambda: {k: Fraction(v) for k, v in dict(ureg.get_dimensionality(d)).items()})
+                        g2 = call(lambda: {k: Fraction(v) for k, v in dict(ureg.get_dimensionality(unit_of[d])).items()})
+                        g3 = call(lambda: ureg.Quantity(1, unit_of[d]).check(d))
+                        if tuple(g1) != ("ok", w) or tuple(g2) != ("ok", w) or tuple(g3) != ("ok", True):
+                            first = [ln.split("=")[0].strip() for ln in perm].index(d)
+                            acc.violation(["dimension-order", "get_dimensionality", "derived-dimension-means-something-else-in-this-order", "referred-to-before-its-line" if any(d in ln.split("=")[1] for ln in perm[:first]) else "defined-first"], dict(case, dimension=d), w and {k: str(v) for k, v in w.items()}, repr([g1, g2, g3])[:200])
+                            break
+    acc.outcome("dimension-orders")
+    acc.sample({"clause": "dimension-order", "lines": ["[D] = [C] / [B]", "[C] = [A] / [B]"], "expected": "[D] = [A] / [B]**2"})
+
+
 def shards(tier, seed):
     out = [("bundled", nt) for nt in ("float", "Fraction", "Decimal")]
     for mi in range(3):
@@ -646,6 +695,7 @@ def shards(tier, seed):
             out.append(("generated", mi, nt))
     out.append(("illformed",))
     out.append(("system-rules",))
+    out.append(("dimension-orders",))
     return out
 
 
@@ -659,6 +709,8 @@ def run_shard(acc, shard, tier, seed):
         run_illformed(acc)
     elif k == "system-rules":
         run_system_rules(acc)
+    elif k == "dimension-orders":
+        run_dimension_orders(acc)
     else:
         raise core.HarnessError(str(shard))
 
@@ -670,6 +722,8 @@ def replay(rec):
         run_bundled(acc, case.get("nt", "float"))
     elif site[0] == "system-rule":
         run_system_rules(acc)
+    elif site[0] == "dimension-order":
+        run_dimension_orders(acc)
     elif site[0] == "generated":
         run_generated(acc, case.get("model", 0), case.get("nt", "float"), rec.get("tier", "quick"))
     else:
